@@ -95,6 +95,10 @@ func (c *cache) flushScheduler() {
 						for _, queued := range b {
 							c.flushObjs.Delete(queued)
 						}
+						if !handledAddr {
+							// already marked, but not in the batch yet
+							c.flushObjs.Delete(addr)
+						}
 						break addrLoop
 					case c.flushCh <- b:
 					case <-c.closeCh:
